@@ -97,6 +97,8 @@ def gen_filters(g, rng, tier, n):
             evs.append([s, e, g.fresh()])
         f = filt_scaled(g, rng, 2, scale)
         t = {"op": "filt", "s": {"op": "stored", "evs": evs}, "f": f}
+        if f["k"] == "and" and rng.random() < 0.5:
+            t["chain"] = True          # written tl & f1 & f2 ... instead of tl & (f1 & f2 ...)
         if rng.random() < 0.12:
             # a guarded chain  tl & (prio != None) & (prio >= k): the second predicate is only defined
             # on the events the first lets through (ordering a None would raise TypeError), so the
@@ -242,7 +244,12 @@ class BufChainFamily(Family):
 
 def filt_scaled(g, rng, depth, scale):
     if depth > 0 and rng.random() < 0.35:
-        return {"k": rng.choice(["and", "or"]), "fs": [filt_scaled(g, rng, depth - 1, scale) for _ in range(rng.choice([2, 3]))]}
+        fs = [filt_scaled(g, rng, depth - 1, scale) for _ in range(rng.choice([2, 3]))]
+        if fs[0]["k"] == "cmp" and fs[0]["v"][0] == "int" and fs[0]["p"][0] in ("dur", "start", "end") and rng.random() < 0.3:
+            # look-alike parts: the same comparison with the same constant on another property
+            others = [q for q in (["dur", 1], ["dur", 60], ["dur", 3600], ["start"], ["end"]) if q != fs[0]["p"]]
+            fs[1] = dict(fs[0], p=rng.choice(others))
+        return {"k": rng.choice(["and", "or"]), "fs": fs}
     if rng.random() < 0.5:
         return {"k": "cmp", "p": ["dur", scale], "c": rng.choice(["ge", "le", "gt", "lt", "eq", "ne"]),
                 "v": ["int", rng.choice([0, 1, 2, 3])]}
